@@ -495,7 +495,9 @@ package fzf
 
 // ---------------------------------------------------------------- reader
 //@ package github.com/junegunn/fzf/src/util
-//@ func IsWindows trusted
+// (this build: util_unix.go)
+//@ func IsWindows
+//@ ensures !result
 //@ package github.com/junegunn/fzf/src
 
 // Ownership: once a record has been handed to the pusher (it becomes an item's text without copying),
@@ -517,6 +519,8 @@ package fzf
 //@ ensures nread == ncut
 // Record accounting: ndel = delimiters found, npush = records handed over by the scanning loop.  Every
 // delimiter-terminated record is handed over - the empty ones too, and whatever Read reported along with the data.
+// (byte for byte: on this platform - IsWindows() is false - no carriage return is ever cut off a record)
+//@ assert @"slab := make([]byte, readerSlabSize)" !trimCR
 //@ ghost ndel int
 //@ ghost nlast int
 //@ ghost calls_pusher int -- counted by the verifier at every call through r.pusher
@@ -735,7 +739,7 @@ package fzf
 // ^t -> prefix, t$ -> suffix, ^t$ -> equal.
 //@ spec func plainTerm(ts []term, k int, fz bool) bool = k == 0 && !ts[k].inv && ts[k].typ == (fz ? termFuzzy : termExact)
 //@ func BuildPattern
-//@ property C01
+//@ property C01 C04
 //@ requires patternCache != nil
 //@ modifies map(patternCache)
 //@ ensures fresh(result) ==> result.fuzzy == fuzzy && result.fuzzyAlgo == fuzzyAlgo && result.extended == extended && result.forward == forward && result.withPos == withPos && result.denylist == denylist && result.nth == nth
@@ -768,8 +772,12 @@ package fzf
 //@ property C17
 //@ libfact @after"FindStringIndex(action)" loc == nil || loc[1] >= 1 -- both patterns begin with a literal character, so a match is never empty
 //@ ensures len(result) == len(action)
+// (the escapes for binding the keys `,` `:` and `+` themselves are applied on every path: five replacements)
+//@ ghost nrep int
+//@ ghost @"masked = strings.ReplaceAll(masked," nrep = nrep + 1
+//@ ensures nrep == 5
 //@ loop 1
-//@   invariant len(masked) + len(action) == old(len(action))
+//@   invariant len(masked) + len(action) == old(len(action)) && nrep == 0
 
 // The argument cursor of parseOptions: the helpers that fetch an option's value never step outside the argument
 // vector, consume at most the one argument they return (none when the value came attached as --opt=value, held in
